@@ -1,3 +1,5 @@
+import Cactus.Lemmas.Final
+import Cactus.Lemmas.Once
 import Cactus.Lemmas.Basic
 /-!
 # C11 — a panicking destructor cannot cause double destruction or dangling state (first layer)
@@ -37,5 +39,22 @@ theorem C11_panic_propagates (s : State) (h : s.unwinding = true) :
 
 example : (({ stack := [.dropFields [1] [], .finishSingle 0, .phase3 [0]] } : State).panic).stack
     = [.dropFields [1] []] := by decide
+
+
+/-! ## Over whole histories with panicking destructors (no hypothesis on the history)
+
+`Reachable` contains the states during and after an unwinding.  -/
+
+/-- **C11 (no double destruction, no double release).** Whatever panics: no value's destructor runs
+twice and no allocation is released twice. -/
+theorem C11_no_double_destruction {s : State} (h : Reachable s) :
+    s.destroyedVids.Nodup ∧ s.freedIds.Nodup := reachable_once' h
+
+/-- **C11 (nothing corrupted).** After (and during) an unwinding all bookkeeping invariants still
+hold: counts of every live object are exact, tables are symmetric and name live objects only,
+weak counts are exact (so Weak handles to the group's members keep reporting them dead and keep
+their allocations valid). -/
+theorem C11_invariants_survive_panic {s : State} (h : Reachable s) (he : s.err = none) :
+    s.InvO ∧ s.InvB ∧ s.InvC ∧ s.InvW ∧ s.InvK := (reachable_core h he).1
 
 end Cactus
